@@ -21,7 +21,7 @@ Proof.
   intros Hab. induction l as [|y l IH]; [simpl; unfold len; simpl; lia|].
   simpl countN. rewrite len_cons.
   destruct (N.eqb a y) eqn:Ea, (N.eqb b y) eqn:Eb; try lia.
-  apply N.eqb_eq in Ea, Eb. congruence.
+  all: apply N.eqb_eq in Ea, Eb; congruence.
 Qed.
 
 (* two different facts cannot both have the winning count *)
